@@ -684,7 +684,6 @@ _SIGS = {
     "solve_ivp": (("fun", "t_span", "y0", "method", "t_eval", "dense_output", "events", "vectorized", "args"), 1,
                   {"t_eval": None, "dense_output": False, "events": None}),
     "array": (("object", "dtype"), 1, {"dtype": None}),
-    "reshape": (("a", "newshape"), 2, {}),
     "split": (("ary", "indices_or_sections", "axis"), 2, {"axis": 0}),
 }
 _SIG_ALIASES = {"clip": {"min": "a_min", "max": "a_max"}, "reshape": {"shape": "newshape"}}
@@ -716,6 +715,10 @@ def canon_call(short, args, kwargs):
             return "randn", list(size.items), {}
         if size is not None:
             return "randn", [size], {}
+    if short == "nonzero" and len(args) == 1 and not kw:
+        return "where", args, kw          # np.where(cond) with one argument is np.nonzero(cond)
+    if short == "reshape" and len(args) == 2 and isinstance(args[1], TupleV) and not kw:
+        return short, [args[0]] + list(args[1].items), kw   # reshape(a, (m, n)) == a.reshape(m, n)
     sig = _SIGS.get(short)
     if sig is None:
         return short, args, kw
